@@ -208,10 +208,20 @@ Definition devices_of (cfg : config) : list comp :=
    65 callback not honoured, 66 tick time invented, 67 device updated without a cause (C06);
    96 tick started early (C12);
    46 tick times of a scheduler decrease (C04) *)
+(* callbacks must have been served up to the last master tick and -- the run being paced against real time and
+   ticks costing no (virtual) real time -- up to the simulation time the run has reached when it is cut off,
+   5 ms of real time before its end: a master that has stopped ticking does not get away with it *)
+Definition served_until (c : sim_case) : Z :=
+  Z.max (last (map fst (sc_mticks c)) (sc_initial c)) (sc_initial c + (sc_end c - 5000000) * sc_num c / sc_den c).
+
+(* C06 on runs with stimuli the case does not list (the injection sweep): callbacks honoured *)
+Definition oracle_c06 (c : sim_case) : list Z :=
+  if honoured (sc_devs c) [] (served_until c) (sc_trace c) then [] else [65].
+
 Definition oracle_sim (c : sim_case) : list Z :=
   initial_ok (devices_of (sc_cfg c)) (sc_initial c) (sc_trace c) ++
   (if latest_ok (flat_conns (sc_cfg c)) (sc_devs c) [] [] (sc_trace c) then [] else [81]) ++
-  (if honoured (sc_devs c) [] (last (map fst (sc_mticks c)) (sc_initial c)) (sc_trace c) then [] else [65]) ++
+  (if honoured (sc_devs c) [] (served_until c) (sc_trace c) then [] else [65]) ++
   (if not_invented c then [] else [66]) ++
   (if caused (flat_conns (sc_cfg c)) (sc_devs c) (sc_initial c) (interrupt_stamps c) [] [] (sc_initial c) [] (sc_trace c)
    then [] else [67]) ++
